@@ -34,7 +34,7 @@ impl Ctx<'_> {
                     self.rep.violation(&format!("C01/unit/{}", form), self.sub, self.case,
                         format!("{} lhs={:?} rhs={:?}: result unit {:?}, expected exponents {:?}; {}", form, l, r, un, unit, detail));
                 }
-                if !same(v, val) {
+                if !(v.to_bits() == val.to_bits() || (v.is_nan() && val.is_nan())) {
                     self.rep.violation(&format!("C01/value/{}", form), self.sub, self.case,
                         format!("{} lhs={:?} rhs={:?}: value {} expected {}; {}", form, l, r, f(v), f(val), detail));
                 }
@@ -295,7 +295,7 @@ fn main() {
     rep.tally("dimension_checking_enabled");
     rep.floor("dimension_checking_enabled", 1);
     // ---- 1. exhaustive 49x49 grid, fresh random finite values per pair and per repetition
-    let reps = args.pick(2, 40);
+    let reps = args.pick(4, 40);
     let mut idx = 0u64;
     for rpt in 0..reps {
         for lm in -3..=3 {
@@ -308,7 +308,14 @@ fn main() {
                             continue;
                         }
                         let mut rng = Rng::new(args.seed, 101, case);
-                        let (a, b) = if rpt % 2 == 0 { (rng.moderate(1e6), rng.moderate(1e6)) } else { (rng.any_finite(), rng.any_finite()) };
+                        // value strata: independent moderate, independent arbitrary, EQUAL values (a fast path that
+                        // compares values before units would only show there), and +0 / -0
+                        let (a, b) = match rpt % 4 {
+                            0 => (rng.moderate(1e6), rng.moderate(1e6)),
+                            1 => (rng.any_finite(), rng.any_finite()),
+                            2 => { let a = rng.any_finite(); (a, a) }
+                            _ => { let z = if rng.chance(0.5) { 0.0f32 } else { -0.0 }; if rng.chance(0.5) { (z, -z) } else { (-rng.moderate(1e3).abs(), z) } }
+                        };
                         let mut ctx = Ctx { rep: &mut rep, sub: "grid", case };
                         pair(&mut ctx, (lm, ls), (rm, rs), a, b);
                         if rep.want_sample("grid") {
@@ -351,7 +358,8 @@ fn main() {
         let mut rng = Rng::new(args.seed, 103, case);
         let l = (rng.range_i64(-60, 60) as i32, rng.range_i64(-60, 60) as i32);
         let r = if rng.chance(0.3) { l } else { (rng.range_i64(-60, 60) as i32, rng.range_i64(-60, 60) as i32) };
-        let (a, b) = (rng.any_finite(), rng.any_finite());
+        let a = rng.any_finite();
+        let b = if rng.chance(0.25) { a } else { rng.any_finite() };
         let mut ctx = Ctx { rep: &mut rep, sub: "random", case };
         pair(&mut ctx, l, r, a, b);
         if rep.want_sample("random") {
